@@ -131,6 +131,7 @@ let rop = function
   | App [Id "OReplaceSeries"; a; l] -> OReplaceSeries (rz a, rzl l)
   | App [Id "OSetAttrNested"; a; l] -> OSetAttrNested (rz a, rlist rzl l)
   | App [Id "OSetAttrSet"; a; l] -> OSetAttrSet (rz a, rzl l)
+  | App [Id "OSetAttrDict"; a; l] -> OSetAttrDict (rz a, rlist (rpair rz rz) l)
   | x -> bad "op" x
 let rops = function
   | Lst l -> List.map rop l
